@@ -375,6 +375,177 @@ theorem reflected_div_number (q n : Desc) (hq : q.isQ = true) (hs : q.cls = .sca
   · have : (q.rank != 0) = true := by simp [hr0]
     simp [this, throw, throwThe, MonadExceptOf.throw] at h1
 
+/-! ### value_ref for the code-shaped functions, every alignment branch (reshape done or skipped for shape `()`) -/
+theorem insArr_zero (A : Arr Int) (p : Nat) : insArr A p 0 = A := by
+  cases A with
+  | mk sh g => simp [insArr, insOnes]
+
+/-- a 0-d right operand (Python scalar / shape `()`): no reshape, NumPy broadcasts it to every element -/
+theorem map2_scalar0_right (f : Int → Int → Int) (X S : Arr Int) (hS : S.shape = []) :
+    ∃ v, Arr.map2 f X S = some v ∧ v.shape = X.shape ∧ ∀ i, v.get i = f (X.get (bidx X.shape i)) (S.get []) := by
+  refine ⟨⟨X.shape, fun i => f (X.get (bidx X.shape i)) (S.get (bidx S.shape i))⟩, ?_, rfl, ?_⟩
+  · simp [Arr.map2, hS, bcast_nil_right]
+  · intro i; simp [hS, bidx_nil]
+
+theorem map2_scalar0_left (f : Int → Int → Int) (X S : Arr Int) (hX : X.shape = []) :
+    ∃ v, Arr.map2 f X S = some v ∧ v.shape = S.shape ∧ ∀ i, v.get i = f (X.get []) (S.get (bidx S.shape i)) := by
+  refine ⟨⟨S.shape, fun i => f (X.get (bidx X.shape i)) (S.get (bidx S.shape i))⟩, ?_, rfl, ?_⟩
+  · simp [Arr.map2, hX, bcast_nil_left]
+  · intro i; simp [hX, bidx_nil]
+
+
+/-- **value_ref at the level of `_mul_by_scalar` (every alignment branch).** With the plan that `mulByScalar` hands to the
+    driver, the values NumPy computes are, at leading index `i`, numerator index `jn` and denominator index `jd`,
+    `X[bidx sx i, jn, jd restricted to X's denominator] * S[bidx ss i, jd restricted to S's denominator]`. -/
+theorem mulByScalar_value (x s : Desc) (hs : s.numer = []) (hd : x.denom = [] ∨ s.denom = []) (X S : Arr Int)
+    (hX : X.shape = x.full) (hS : S.shape = s.full) (out : Shape) (hb : bcast x.shape s.shape = some out) :
+    ∃ v, ewValues .mul x.full.length (if s.drank > 0 && x.full != [] then s.drank else 0)
+            s.shape.length (if s.full != [] then x.rank else 0) X S = some v ∧
+      v.shape = out ++ (x.numer ++ (x.denom ++ s.denom)) ∧
+      ∀ i jn jd, i.length = out.length → Valid x.numer jn → Valid (x.denom ++ s.denom) jd →
+        v.get (i ++ (jn ++ jd)) =
+          X.get (bidx x.shape i ++ (jn ++ jd.take x.denom.length)) * S.get (bidx s.shape i ++ jd.drop x.denom.length) := by
+  have hsf : s.full = s.shape ++ s.denom := by simp [Desc.full, hs]
+  have hlen := bcast_length hb
+  unfold ewValues
+  by_cases hsd : s.denom = []
+  · -- S has no denominator: X is not reshaped
+    have h0 : (if s.drank > 0 && x.full != [] then s.drank else 0) = 0 := by simp [Desc.drank, hsd]
+    rw [h0, insArr_zero]
+    have hsf' : s.full = s.shape := by simp [hsf, hsd]
+    have hxf : x.full = x.shape ++ (x.numer ++ x.denom) := by simp [Desc.full]
+    by_cases hss : s.shape = []
+    · have : (if s.full != [] then x.rank else 0) = 0 := by simp [hsf', hss]
+      rw [this, insArr_zero]
+      obtain ⟨v, hv, hsh, hg⟩ := map2_scalar0_right (elemFn .mul) X S (by rw [hS, hsf', hss])
+      have hout : out = x.shape := by
+        rw [hss, bcast_nil_right] at hb; exact (Option.some.inj hb).symm
+      refine ⟨v, hv, by rw [hsh, hX, hxf, hout, hsd]; simp, ?_⟩
+      intro i jn jd hi vn vd
+      rw [hsd, List.append_nil] at vd
+      have hjd : jd.length = x.denom.length := valid_length vd
+      rw [hg, hX, hxf, bidx_append _ _ _ _ (by simp [valid_length vn, hjd]),
+        bidx_self ((valid_append (valid_length vn)).2 ⟨vn, vd⟩), hss, bidx_nil]
+      simp [elemFn, ← hjd]
+    · have : (if s.full != [] then x.rank else 0) = x.rank := by simp [hsf', hss]
+      rw [this]
+      have hr : x.rank = (x.numer ++ x.denom).length := by simp [Desc.rank]
+      have h := value_ref_scalar (elemFn .mul) X S x.shape s.shape (x.numer ++ x.denom) (by rw [hX, hxf])
+        (by rw [hS, hsf'])
+      rw [hb] at h
+      obtain ⟨v, hv, hsh, hg⟩ := h
+      rw [hr]
+      refine ⟨v, hv, by rw [hsh, hsd]; simp, ?_⟩
+      intro i jn jd hi vn vd
+      rw [hsd, List.append_nil] at vd
+      have hjd : jd.length = x.denom.length := valid_length vd
+      have := hg i (jn ++ jd) ((valid_append (valid_length vn)).2 ⟨vn, vd⟩) (by simp [valid_length vn, hjd])
+        (by rw [hi, hlen]; omega)
+      rw [this]
+      simp [elemFn, ← hjd]
+  · -- S carries the denominator, X has none
+    have hxd : x.denom = [] := by rcases hd with h | h; exact h; exact absurd h hsd
+    have hxf : x.full = x.shape ++ x.numer := by simp [Desc.full, hxd]
+    have hsne : (if s.full != [] then x.rank else 0) = x.numer.length := by
+      have : s.full ≠ [] := by rw [hsf]; simp [hsd]
+      simp [this, Desc.rank, hxd]
+    rw [hsne]
+    by_cases hxe : x.full = []
+    · have h0 : (if s.drank > 0 && x.full != [] then s.drank else 0) = 0 := by simp [hxe]
+      have hsh0 : x.shape = [] := by rw [hxf] at hxe; exact (List.append_eq_nil_iff.mp hxe).1
+      have hnu : x.numer = [] := by rw [hxf] at hxe; exact (List.append_eq_nil_iff.mp hxe).2
+      rw [h0, insArr_zero, hnu]
+      simp only [List.length_nil]
+      rw [insArr_zero]
+      obtain ⟨v, hv, hsh, hg⟩ := map2_scalar0_left (elemFn .mul) X S (by rw [hX, hxe])
+      have hout : out = s.shape := by
+        rw [hsh0, bcast_nil_left] at hb; exact (Option.some.inj hb).symm
+      refine ⟨v, hv, by rw [hsh, hS, hsf, hout, hxd]; simp, ?_⟩
+      intro i jn jd hi vn vd
+      rw [hxd, List.nil_append] at vd
+      have hjn : jn = [] := List.eq_nil_of_length_eq_zero (by simpa using valid_length vn)
+      rw [hg, hS, hsf, hjn, List.nil_append, bidx_append _ _ _ _ (valid_length vd), bidx_self vd, hsh0, bidx_nil,
+        hxd]
+      simp [elemFn]
+    · have h1 : (if s.drank > 0 && x.full != [] then s.drank else 0) = s.denom.length := by
+        have : s.denom.length > 0 := List.length_pos_iff.mpr hsd
+        simp [Desc.drank, hxe, this]
+      rw [h1]
+      have h := value_ref_scalar_denom (elemFn .mul) X S x.shape s.shape x.numer s.denom (by rw [hX, hxf])
+        (by rw [hS, hsf])
+      rw [hb] at h
+      obtain ⟨v, hv, hsh, hg⟩ := h
+      have hpx : x.full.length = x.shape.length + x.numer.length := by rw [hxf]; simp
+      rw [hpx]
+      refine ⟨v, hv, by rw [hsh, hxd]; simp, ?_⟩
+      intro i jn jd hi vn vd
+      rw [hxd, List.nil_append] at vd
+      have := hg i jn jd vn (valid_length vn) vd (valid_length vd) (by rw [hi, hlen]; omega) (by rw [hi, hlen]; omega)
+      rw [this, hxd]
+      simp [elemFn]
+
+/-- **value_ref at the level of `_div_by_scalar` / `_floordiv_by_scalar` / `_mod_by_scalar` (every alignment branch).** -/
+theorem divByScalar_value (op : OpSym) (x s : Desc) (hs : s.numer = []) (hsd : s.denom = []) (X S : Arr Int)
+    (hX : X.shape = x.full) (hS : S.shape = s.full) (out : Shape) (hb : bcast x.shape s.shape = some out) :
+    ∃ v, ewValues op 0 0 s.shape.length (if s.full != [] && x.rank != 0 then x.rank else 0) X S = some v ∧
+      v.shape = out ++ (x.numer ++ x.denom) ∧
+      ∀ i j, i.length = out.length → Valid (x.numer ++ x.denom) j →
+        v.get (i ++ j) = elemFn op (X.get (bidx x.shape i ++ j)) (S.get (bidx s.shape i)) := by
+  have hsf : s.full = s.shape := by simp [Desc.full, hs, hsd]
+  have hxf : x.full = x.shape ++ (x.numer ++ x.denom) := by simp [Desc.full]
+  have hr : x.rank = (x.numer ++ x.denom).length := by simp [Desc.rank]
+  have hlen := bcast_length hb
+  unfold ewValues
+  rw [insArr_zero]
+  by_cases hskip : s.shape = [] ∨ x.rank = 0
+  · have : (if s.full != [] && x.rank != 0 then x.rank else 0) = 0 := by
+      rcases hskip with h | h
+      · simp [hsf, h]
+      · simp [h]
+    rw [this, insArr_zero]
+    rcases hskip with hss | hx0
+    · obtain ⟨v, hv, hsh, hg⟩ := map2_scalar0_right (elemFn op) X S (by rw [hS, hsf, hss])
+      have hout : out = x.shape := by
+        rw [hss, bcast_nil_right] at hb; exact (Option.some.inj hb).symm
+      refine ⟨v, hv, by rw [hsh, hX, hxf, hout], ?_⟩
+      intro i j hi vj
+      rw [hg, hX, hxf, bidx_append _ _ _ _ (valid_length vj), bidx_self vj, hss, bidx_nil]
+    · have hi0 : x.numer ++ x.denom = [] := List.eq_nil_of_length_eq_zero (by rw [← hr]; exact hx0)
+      have h := value_ref_same_item (elemFn op) X S x.shape s.shape [] (by rw [hX, hxf, hi0]) (by rw [hS, hsf]; simp)
+      rw [hb] at h
+      obtain ⟨v, hv, hsh, hg⟩ := h
+      refine ⟨v, hv, by rw [hsh, hi0], ?_⟩
+      intro i j hi vj
+      rw [hi0] at vj
+      have hj : j = [] := List.eq_nil_of_length_eq_zero (by simpa using valid_length vj)
+      subst hj
+      have := hg i [] (by simp [Valid]) rfl
+      simpa using this
+  · have hss : s.shape ≠ [] := fun h => hskip (Or.inl h)
+    have hx0 : x.rank ≠ 0 := fun h => hskip (Or.inr h)
+    have : (if s.full != [] && x.rank != 0 then x.rank else 0) = x.rank := by simp [hsf, hss, hx0]
+    rw [this, hr]
+    have h := value_ref_scalar (elemFn op) X S x.shape s.shape (x.numer ++ x.denom) (by rw [hX, hxf]) (by rw [hS, hsf])
+    rw [hb] at h
+    obtain ⟨v, hv, hsh, hg⟩ := h
+    refine ⟨v, hv, hsh, ?_⟩
+    intro i j hi vj
+    exact hg i j vj (valid_length vj) (by rw [hi, hlen]; omega)
+
+/-- **value_ref at the level of `__add__` / `__sub__`** (operands that passed the numerator / denominator checks) -/
+theorem addCore_value (op : OpSym) (a b : Desc) (hn : a.numer = b.numer) (hd : a.denom = b.denom) (A B : Arr Int)
+    (hA : A.shape = a.full) (hB : B.shape = b.full) (out : Shape) (hb : bcast a.shape b.shape = some out) :
+    ∃ v, ewValues op 0 0 0 0 A B = some v ∧ v.shape = out ++ (a.numer ++ a.denom) ∧
+      ∀ i j, Valid (a.numer ++ a.denom) j →
+        v.get (i ++ j) = elemFn op (A.get (bidx a.shape i ++ j)) (B.get (bidx b.shape i ++ j)) := by
+  unfold ewValues
+  rw [insArr_zero, insArr_zero]
+  have h := value_ref_same_item (elemFn op) A B a.shape b.shape (a.numer ++ a.denom)
+    (by rw [hA]; simp [Desc.full]) (by rw [hB]; simp [Desc.full, hn, hd])
+  rw [hb] at h
+  obtain ⟨v, hv, hsh, hg⟩ := h
+  exact ⟨v, hv, hsh, fun i j vj => hg i j vj (valid_length vj)⟩
+
 /-! ### `**` and the Scalar math functions: class, kind, shape, rejection -/
 
 /-- **pow rule.** `Scalar ** e` for a unit-less Scalar base without denominator and an exponent that is a rank-0 unit-less
@@ -407,10 +578,10 @@ theorem powDispatch_rejects (a b : Desc) (negInt : Bool) (ha : a.isQ = true) (hc
     simp [ha, hc, hu, hd, hb, hbc, hbr, bind, Except.bind, throw, throwThe, MonadExceptOf.throw]
 
 /-- **math functions.** An accepted call returns a Scalar of the operand's leading shape; every function except `sign`
-    returns floats, `sign` keeps the kind; an operand with a denominator is never accepted. -/
+    returns floats and never accepts an operand with a denominator; `sign` keeps the kind and the denominator. -/
 theorem mathFn_rule (f : MathFn) (a : Desc) (r : Res) (h : mathFn f a = some (.ok r)) :
-    r.cls = .scalar ∧ r.lead = a.shape ∧ r.numer = [] ∧ r.denom = [] ∧ a.denom = [] ∧
-    (f ≠ .sign → r.kind = .float) ∧ (f = .sign → r.kind = a.kind) := by
+    r.cls = .scalar ∧ r.lead = a.shape ∧ r.numer = [] ∧ r.denom = a.denom ∧
+    (f ≠ .sign → r.kind = .float ∧ a.denom = []) ∧ (f = .sign → r.kind = a.kind) := by
   unfold mathFn at h
   split at h
   · cases h
@@ -419,10 +590,8 @@ theorem mathFn_rule (f : MathFn) (a : Desc) (r : Res) (h : mathFn f a = some (.o
         | (split at h
            · cases h
            · simp only [Option.some.injEq, pure, Except.pure, Except.ok.injEq] at h
-             rename_i hd
              subst h
-             simp at hd
-             simp [hd.1])
+             simp)
         | (simp only [Option.some.injEq] at h
            split at h
            · cases h
